@@ -332,7 +332,8 @@ theorem inRolling_total (w : World) (old ns : Rollout) (s os : Sub) (wl : WL)
 theorem not_corrupted (w : World) (h : corrupted w = false) :
     w.ro.steps ≠ [] ∧ ¬ (w.ro.phase = .progressing ∧ w.ro.reason = .none) ∧ ¬ (w.ro.phase = .terminating ∧ w.ro.term = .none) ∧
     ¬ (w.ro.phase = .progressing ∧ w.ro.reason = .inRolling ∧ w.ro.sub = none) ∧
-    (∀ s, w.ro.sub = some s → 1 ≤ s.curIdx ∧ s.curIdx ≤ w.ro.steps.length ∧ s.lastUpdate ≠ .none) ∧
+    (w.ro.phase = .progressing → w.ro.reason = .inRolling →
+      ∀ s, w.ro.sub = some s → 1 ≤ s.curIdx ∧ s.curIdx ≤ w.ro.steps.length ∧ s.lastUpdate ≠ .none) ∧
     (w.ro.phase = .progressing → w.ro.reason = .inRolling → BrOk w.br) := by
   unfold corrupted at h
   simp only [Bool.or_eq_false_iff, Bool.and_eq_false_iff] at h
@@ -346,12 +347,15 @@ theorem not_corrupted (w : World) (h : corrupted w = false) :
     · simp [h1] at d
     · simp [h2] at d
     · simp [h3] at d
-  · intro s hs
-    rw [hs] at e
-    simp only [Bool.or_eq_false_iff, decide_eq_false_iff_not, not_or, Int.not_lt] at e
-    obtain ⟨⟨e1, e2⟩, e3⟩ := e
-    refine ⟨by omega, by omega, ?_⟩
-    intro hl; rw [hl] at e3; simp at e3
+  · intro h1 h2 s hs
+    rcases e with (e | e) | e
+    · simp [h1] at e
+    · simp [h2] at e
+    · rw [hs] at e
+      simp only [Bool.or_eq_false_iff, decide_eq_false_iff_not, not_or, Int.not_lt] at e
+      obtain ⟨⟨e1, e2⟩, e3⟩ := e
+      refine ⟨by omega, by omega, ?_⟩
+      intro hl; rw [hl] at e3; simp at e3
   · intro h1 h2 b hb
     rcases f with (f | f) | f
     · simp [h1] at f
@@ -422,7 +426,7 @@ theorem reconcile_total (w : World) (h : corrupted w = false) : reconcile w ≠ 
                 rw [hos] at hrel
                 simp only [Option.map_some, Option.some.injEq, subCore, Prod.mk.injEq] at hrel
                 obtain ⟨c1, _, _, c4, _⟩ := hrel
-                obtain ⟨b1, b2, b3⟩ := hsub os hos
+                obtain ⟨b1, b2, b3⟩ := hsub hph hr os hos
                 have := inRolling_total w w.ro ns s os wl hos nsteps (by omega)
                   (by rw [hsame.1, e_steps]; omega) (by rw [c4]; exact b3) (hbr hph hr)
                 split
